@@ -6,3 +6,6 @@ open Pcore.Syntax
 #print axioms C06_no_fault
 #print axioms C06_outcome
 #print axioms C06_location
+#print axioms C06_loops_exit
+#print axioms C06_loops_progress
+#print axioms C06_loops_terminate
